@@ -222,7 +222,11 @@ func VerifC19Provide() {
 		}
 		saved := vCancelAtJoin
 		vCancelAtJoin = false
-		pout, perr := provide(ctx, pp, pf, func(_ context.Context, a provideArgs) (int, error) { return a.client.(*vNode).outcome() }, nil, sel)
+		var pout int
+		var perr error
+		vrt.MustReturn(func() {
+			pout, perr = provide(ctx, pp, pf, func(_ context.Context, a provideArgs) (int, error) { return a.client.(*vNode).outcome() }, nil, sel)
+		})
 		vCancelAtJoin = saved
 		vrt.Assert("the earlier call is served by a fallback", perr == nil && pout >= 110)
 	}
